@@ -240,9 +240,20 @@ impl MemReader {
         // I don't think there would ever be a case where we would not read on word boundaries, but just in case...
         let last = chunks.into_remainder();
         if !last.is_empty() {
-            let word = nix::sys::ptrace::read(pid, (src + offset) as *mut std::ffi::c_void)
-                .map_err(|err| (err, offset))?;
-            last.copy_from_slice(&word.to_ne_bytes()[..last.len()]);
+            let rem = last.len();
+            match nix::sys::ptrace::read(pid, (src + offset) as *mut std::ffi::c_void) {
+                Ok(word) => last.copy_from_slice(&word.to_ne_bytes()[..rem]),
+                Err(err) => {
+                    // A whole word starting at the tail can extend past the end of a mapping even
+                    // though the requested range is readable. Read the word that ends where the
+                    // range ends instead.
+                    let back = std::mem::size_of::<usize>() - rem;
+                    let addr = (src + offset).checked_sub(back).ok_or((err, offset))?;
+                    let word = nix::sys::ptrace::read(pid, addr as *mut std::ffi::c_void)
+                        .map_err(|err| (err, offset))?;
+                    last.copy_from_slice(&word.to_ne_bytes()[back..]);
+                }
+            }
         }
 
         Ok(dst.len())
